@@ -112,7 +112,7 @@ Definition search_matches_g (m : smethod) (needle : pyval) (haystack : hay) : ou
       do r <- re_search n (py_str th);
       match r with
       | RMatch b => Ok b
-      | RError => Raise (PyCrash ReError)
+      | RError => Raise (YPE Generic)     (* re.error is wrapped into YAMLPathException (searches.py) *)
       end
   end.
 
